@@ -96,6 +96,8 @@ fn family(name: &str, ctx: &str, prefix: &str) -> Option<&'static str> {
         "dq" => {
             if name.ends_with('\\') {
                 Some("double-quoted:trailing-backslash-escapes-the-closing-quote")
+            } else if name.contains("\\\"") {
+                Some("double-quoted:backslash-directly-before-a-double-quote-in-name")
             } else if dollar_ref {
                 Some("double-quoted:dollar-reference-in-name-is-expanded")
             } else if bq_pair {
